@@ -99,6 +99,8 @@ def random_lle_trace(seed, tid, method):
             comp = dict(last_comp)            # same composition again, other temperature (or the same)
         else:
             comp = {i: rng.choice([1., 2., 5., 10., 0.5]) for i in ids}
+            if len(ids) > 2 and rng.random() < 0.2:
+                comp[rng.choice(ids)] = rng.choice([1e-3, 3e-4])       # a minor component (below 1e-6 kmol/hr in the feed scaled by 1e-3)
         last_comp = comp
         T = rng.choice([rng.uniform(285, 355), 298.15, 310., 330.])
         Ti = int(round(T * 1000))
